@@ -81,7 +81,9 @@ CONTRACTS = [
                             "    exists(lambda v: vertices[v] != 0, 0, ipow(4, observed_length)),\n"
                             "    ipow(4, observed_length) == 4 * ipow(4, observed_length - 1), ipow(4, observed_length - 1) >= 1)",
             "after_loop3": "unstash('inside-mask')\nunstash('contains-S')\nunstash('closed')",
-            "after_loop2": "unstash('S-closed')\nssum_mono_eq(A(new_vertices), D(new_vertices), A(vertices), D(vertices), P(vertices, 0), P(vertices, len(vertices)))\n"
+            "before_loop2": "stash('l1-inside-mask', forall(lambda v: implies(vertices[v] != 0, mask0[v] != 0), 0, ipow(4, observed_length)))\n"
+                            "stash('l1-contains-S', forall(lambda v: implies(S[v] != 0, vertices[v] != 0), 0, ipow(4, observed_length)))",
+            "after_loop2": "unstash('l1-inside-mask')\nunstash('l1-contains-S')\nunstash('S-closed')\nssum_mono_eq(A(new_vertices), D(new_vertices), A(vertices), D(vertices), P(vertices, 0), P(vertices, len(vertices)))\n"
                            "ssum_zero_iff(A(new_vertices), D(new_vertices), P(new_vertices, 0), P(new_vertices, len(new_vertices)))\n"
                            "ssum_zero_iff(A(vertices), D(vertices), P(vertices, 0), P(vertices, len(vertices)))",
         },
@@ -239,6 +241,25 @@ def decode_variant(shuffled, with_check):
         "after_loop2": "hv_lv_dual(A(svd), A(svg), 0, nsaved)\n"
                        "pv_bound(A(quotient), D(quotient), P(quotient, 0), P(quotient, len(quotient)), 10)",
     }
+    loops_extra = {}
+    if with_check:
+        # a supplied check that differs from set_vt(strand) cannot be 'the documented check' (uniqueness), and one that equals it is
+        ghost["before_raise1"] = ("r = set_vt(dna_sequence, len(vt_check))\n"
+                                  "if vt_matches(vt_check, dna_sequence):\n"
+                                  "    pv_inj(A(codes(r)), 0, P(r, 1), A(codes(vt_check)), 0, P(vt_check, 1), len(vt_check) - 1, 4)\n"
+                                  "    j = 0\n"
+                                  "    while j < len(vt_check):\n"
+                                  "        assert codes(r)[j] == codes(vt_check)[j]\n"
+                                  "        j += 1\n"
+                                  "    assert r == vt_check, 'the-documented-check-is-unique'\n")
+        loops_extra["before_raise1#1"] = dict(invariant={
+            "range": "0 <= j <= len(vt_check) and len(r) == len(vt_check)",
+            "equal-so-far": "forall(lambda q: r[q] == vt_check[q], 0, j)"}, variant="len(vt_check) - j")
+        ghost["before_loop1"] = ("r = set_vt(dna_sequence, len(vt_check))\n"
+                                 "pv_ext(A(codes(vt_check)), 0, P(vt_check, 1), A(codes(r)), 0, P(r, 1), len(vt_check) - 1, 4)\n"
+                                 "stash('check-matches', is_dna(dna_sequence) and vt_matches(vt_check, dna_sequence))\n"
+                                 "cut()\n") + ghost["before_loop1"]
+        ghost["before_return"] = "unstash('check-matches')"
     return dict(
         name=name, function="dsw.spiderweb.decode", variant_of="dsw.spiderweb.decode", n_loops=3,
         ghost_params={"k": "nat"},
@@ -271,6 +292,7 @@ def decode_variant(shuffled, with_check):
                 "canonical": "canon(quotient)",
                 "horner": "dval(quotient) == hv(svd, svg, nsaved - _i, nsaved)",
             }),
+            **loops_extra,
         },
         lemmas=["pv_store_frame", "wt_store_frame", "lv_store_frame"],
     )
@@ -281,5 +303,5 @@ CONTRACTS = CONTRACTS + [
          dispatch={"params": ["is_faster", "shuffles", "vt_check"], "table": {
              "false|NoneV|NoneV": "dsw.spiderweb.decode#normal", "false|Mat|NoneV": "dsw.spiderweb.decode#normal-table",
              "false|NoneV|str": "dsw.spiderweb.decode#normal-vt", "false|Mat|str": "dsw.spiderweb.decode#normal-table-vt"}}),
-    decode_variant(False, False), decode_variant(True, False),
+    decode_variant(False, False), decode_variant(True, False), decode_variant(False, True), decode_variant(True, True),
 ]
